@@ -45,7 +45,6 @@ DTYPES = {"float64": np.float64, "float32": np.float32, "int32": np.int32, "int6
           "int8": np.int8, "complex": np.complex128}
 SETDT = {"bool": bool, "int": np.int64, "float": float, "uint8": np.uint8, "int8": np.int8, "float32": np.float32,
          "complex": complex}
-OUT_TAG = "C08-ufunc-out-validity"
 FLAGS = []           # oracle clauses raised inside an operation wrapper (outputs of one call sharing a mask, ...)
 ARG_CHANGED = []     # descriptions of caller-supplied containers that an operation modified
 
@@ -615,6 +614,32 @@ def base_case(rng, tier, nd=None, nmax=None):
     return dict(n=n, cell=[g.qs(x) for x in cell], p1=[g.qs(x) for x in p1])
 
 
+def zero_heavy_leaf(rng, n, nv):
+    """explicit validity, VALID cells holding the zero vector or a vector shorter than the 1e-8 threshold:
+    validity follows the data only through valid='norm', never through an operation"""
+    ncell = math.prod(n)
+    lf = rand_leaf(rng, n, nv)
+    vals = [F(x) for x in lf["vals"]]
+    mask = [rng.random() < 0.75 for _ in range(ncell)]
+    kinds = [rng.choice(["zero", "tiny", "tiny1", "normal"]) for _ in range(ncell)]
+    kinds[rng.randrange(ncell)] = "zero"
+    for cell, kd in enumerate(kinds):
+        if kd == "zero":
+            vals[cell * nv:(cell + 1) * nv] = [F(0)] * nv
+            mask[cell] = True if rng.random() < 0.8 else mask[cell]
+        elif kd == "tiny":
+            vals[cell * nv:(cell + 1) * nv] = [F(rng.choice([-2, -1, 1, 3]), 2 ** 40) for _ in range(nv)]
+            mask[cell] = True if rng.random() < 0.8 else mask[cell]
+        elif kd == "tiny1":
+            v = [F(0)] * nv
+            v[rng.randrange(nv)] = F(rng.choice([1e-8, 9e-9, 1e-9, -1e-8]))
+            vals[cell * nv:(cell + 1) * nv] = v
+            mask[cell] = True
+    lf["vals"] = [g.qs(v) for v in vals]
+    lf["mask"] = mask
+    return lf
+
+
 def rand_leaf(rng, n, nv, cplx=False):
     ncell = math.prod(n)
     vals = [F(rng.choice([-3, -2, -1, 1, 2, 3, 4, 0])) for _ in range(ncell * nv)]
@@ -825,7 +850,8 @@ def gen_expr_case(rng, tier, force=None):
         c["intcorners"] = rng.choice(["list", "array"])
     nv = rng.choice([1, 2, 3, 3, nd, nd, 4])
     dt = rng.choice([None, None, None, None, "float32", "int32", "int64", "uint8", "complex", "int8"])
-    c["leaves"] = [rand_leaf(rng, n, nv), rand_leaf(rng, n, nv), rand_leaf(rng, n, 1)]
+    mk = zero_heavy_leaf if rng.random() < 0.25 else rand_leaf
+    c["leaves"] = [mk(rng, n, nv), mk(rng, n, nv), mk(rng, n, 1)]
     for lf in c["leaves"]:
         if dt:
             lf["dtype"] = dt
@@ -937,6 +963,20 @@ def gen_single_op_cases(rng, tier):
     for name, p in un_all:
         c = fresh(bc=rng.choice([None, "x", "xyz"]) if name == "diff" else None)
         c["tree"] = ["un", name, p, ["leaf", 0]]
+        out.append(c)
+    for name, p in un_all + [("grad", dict(nd=3)), ("laplace", dict(nd=3, nv=1))]:
+        # the same operations on explicitly valid zero / sub-threshold vectors
+        c = fresh()
+        n = c["n"]
+        scalar_op = name in ("grad",) or (name == "laplace" and p.get("nv") == 1)
+        c["leaves"] = [zero_heavy_leaf(rng, n, 3), zero_heavy_leaf(rng, n, 3), zero_heavy_leaf(rng, n, 1)]
+        c["tree"] = ["un", name, p, ["leaf", 2 if scalar_op else 0]]
+        out.append(c)
+    for name in ("angle", "div", "dot", "cross", "mul", "lshift"):
+        c = fresh()
+        n = c["n"]
+        c["leaves"] = [zero_heavy_leaf(rng, n, 3), zero_heavy_leaf(rng, n, 3), zero_heavy_leaf(rng, n, 1)]
+        c["tree"] = ["bin", name, {}, ["leaf", 0], ["leaf", 1]]
         out.append(c)
     for name, p in maybe:
         # refused by the library today (NotImplementedError); if accepted, the operand's validity, own masks
@@ -1171,7 +1211,13 @@ def gen_ufout(rng, tier):
     n = c["n"]
     nv = rng.choice([1, 2, 3])
     c["leaves"] = [rand_leaf(rng, n, nv), rand_leaf(rng, n, rng.choice([nv, 1])), rand_leaf(rng, n, nv)]
-    c["uf"] = rng.choice(["add", "multiply", "subtract", "negative", "divmod"])
+    c["uf"] = rng.choice(["add", "multiply", "subtract", "negative", "divmod", "divmod", "maximum"])
+    if rng.random() < 0.25:
+        c["other_mesh"] = rng.choice(["shift", "n"])
+    c["tuple_out"] = rng.random() < 0.4
+    if rng.random() < 0.4:
+        for lf in c["leaves"]:
+            lf["vdims"] = ["a", "ab", "abc"][:nv] if lf["nvdim"] == nv and nv > 1 else None
     c["kind"] = "ufout"
     return c
 
@@ -1208,7 +1254,7 @@ def generate(rng, tier):
         cases.append(gen_norm(rng, tier, False))
     for _ in range(15 if quick else 100):
         cases.append(gen_vtkenc(rng, tier))
-    for _ in range(12 if quick else 80):
+    for _ in range(30 if quick else 200):
         cases.append(gen_ufout(rng, tier))
     return cases
 
@@ -1564,42 +1610,92 @@ def run_vtkenc(c):
 
 
 def run_ufout(c):
-    """np.<ufunc>(f1, f2, out=o): either refused, or the output field the caller handed over carries the AND of
-    the operands' validity once it holds the result (oracle only; the returned field is covered by 'expr')"""
+    """np.<ufunc>(f1, f2, out=o): the output field the caller hands over receives the data AND the cell-wise AND
+    of the operands' validity (own copy), keeps its labels and unit, and is the return value (numpy's
+    convention); an out field on another mesh is refused.  Modelled like the plain ufunc."""
     rec = dict(kind="ufout", case=c, oracle=[], tags=[], coq=None)
+    n = c["n"]
     f1, f2, o = build_leaves(c)
-    o2 = df.Field(o.mesh, nvdim=o.nvdim, value=o.array.copy(), valid=o.valid.copy())
-    snaps = [snap_field(f1), snap_field(f2)]
-    o_before = o.array.copy()
+    o.unit = "T"
     uf = c["uf"]
-    want = f1.valid.copy() if uf == "negative" else np.logical_and(f1.valid, f2.valid)
+    other_mesh = bool(c.get("other_mesh"))
+    if other_mesh:
+        c2 = dict(c)
+        if c["other_mesh"] == "shift":
+            c2["p1"] = [g.qs(F(x) + 1) for x in c["p1"]]
+        else:
+            c2["n"] = [k + 1 for k in n]
+            c2["leaves"] = [rand_fill(lf, math.prod(c2["n"])) for lf in c["leaves"]]
+        o = build_leaves(c2)[2]
+    o2 = df.Field(o.mesh, nvdim=o.nvdim, value=o.array.copy(), valid=o.valid.copy(), unit="A/m")
+    snaps = [snap_field(f1), snap_field(f2)]
+    lab = [(x.vdims, list(x.vdim_mapping.items()), x.unit, x.mesh) for x in (o, o2)]
+    o_before = (o.array.copy(), o.valid.copy())
+    m1, m2 = f1.valid.copy(), f2.valid.copy()
+    want = m1 if uf == "negative" else np.logical_and(m1, m2)
+    outs = [o, o2] if uf == "divmod" else [o]
     with np.errstate(all="ignore"):
         if uf == "negative":
             st, r = attempt(lambda: np.negative(f1, out=o))
         elif uf == "divmod":
             st, r = attempt(lambda: np.divmod(f1, f2, out=(o, o2)))
+        elif c.get("tuple_out"):
+            st, r = attempt(lambda: getattr(np, uf)(f1, f2, out=(o,)))
         else:
             st, r = attempt(lambda: getattr(np, uf)(f1, f2, out=o))
     if [snap_field(f1), snap_field(f2)] != snaps:
         rec["oracle"].append("operand-changed")
-    written = o.array.tobytes() != o_before.tobytes()
-    outs = [o, o2] if uf == "divmod" else [o]
-    if st == "ok":
-        rs = list(r) if isinstance(r, tuple) else [r]
-        for x in rs:
-            if isinstance(x, df.Field) and (x.valid.dtype != np.bool_ or not np.array_equal(x.valid, want)):
-                rec["oracle"].append("validity-does-not-follow-data")
-        if any(not np.array_equal(x.valid, want) for x in outs):
-            rec["oracle"].append("out-field-validity-not-updated")
-            rec["tags"].append(OUT_TAG)
-    elif written:
-        rec["oracle"].append("refused-but-out-field-written")
+    if [(x.vdims, list(x.vdim_mapping.items()), x.unit, x.mesh) for x in (o, o2)] != lab \
+            or any(x.mesh is not l_[3] for x, l_ in zip((o, o2), lab)):
+        rec["oracle"].append("out-field-labels-changed")
+    written = o.array.tobytes() != o_before[0].tobytes() or o.valid.tobytes() != o_before[1].tobytes()
+    env = f"[({g.nl(m1.shape)}, {g.bl(m1.reshape(-1).tolist())}); ({g.nl(m2.shape)}, {g.bl(m2.reshape(-1).tolist())})]"
+    expr = "(Un UUfunc1 (Leaf 0%nat))" if uf == "negative" else "(Bin BUfunc2 (Leaf 0%nat) (Leaf 1%nat))"
+    if other_mesh:
+        if st == "ok":
+            rec["oracle"].append("out-of-other-mesh-accepted")
+        elif written:
+            rec["oracle"].append("refused-but-out-field-written")
+        rec.update(obs=dict(status="ok" if st == "ok" else r, written=written), size=math.prod(n),
+                   key=f"ufout/other/{uf}/{tuple(n)}")
+        return rec
+    if st != "ok":
+        rec["oracle"].append("out-form-refused")           # supported since /repo 92e4ddb1
+        rec.update(obs=dict(status=r, written=written), size=math.prod(n), key=f"ufout/rej/{uf}/{tuple(n)}",
+                   coq=f"CExpr {env} {expr} None [] []")
+        return rec
+    rs = list(r) if isinstance(r, tuple) else [r]
+    if len(rs) != len(outs) or any(a is not b for a, b in zip(rs, outs)):
+        rec["oracle"].append("out-result-is-not-out")
+    if any(x.valid.dtype != np.bool_ or x.valid.shape != want.shape or not np.array_equal(x.valid, want) for x in outs):
+        rec["oracle"].append("out-field-validity-not-updated")
+    if len(outs) == 2 and np.shares_memory(o.valid, o2.valid):
+        rec["oracle"].append("outputs-share-mask")
+    shares = [bool(np.shares_memory(o.valid, f.valid)) for f in (f1, f2)]
+    mask = np.array(o.valid, dtype=bool).copy()
+    keep2 = np.array(o2.valid, dtype=bool).copy()
+    o.valid[...] = np.logical_not(o.valid)
+    touched = [not np.array_equal(f1.valid, m1), not np.array_equal(f2.valid, m2)]
+    if any(shares) or any(touched) or (len(outs) == 2 and not np.array_equal(o2.valid, keep2)):
+        rec["oracle"].append("own")
     rec["oracle"] = sorted(set(rec["oracle"]))
-    rec.update(obs=dict(status=st if st != "ok" else "ok", err=None if st == "ok" else r, written=written,
-                        out_valid=[x.valid.reshape(-1).tolist() for x in outs], want=want.reshape(-1).tolist(),
-                        returned_is_out=bool(st == "ok" and not isinstance(r, tuple) and r is o)),
-               key=f"ufout/{uf}/{tuple(c['n'])}/{hash(tuple(c['leaves'][0]['mask']))}", size=math.prod(c["n"]))
+    coq = None
+    if mask.shape == want.shape:
+        coq = (f"CExpr {env} {expr} (Some ({g.nl(mask.shape)}, {g.bl(mask.reshape(-1).tolist())})) "
+               f"{g.bl(shares)} {g.bl(touched)}")
+    rec.update(obs=dict(status="ok", out_valid=mask.reshape(-1).tolist(), want=want.reshape(-1).tolist(), shares=shares,
+                        touched=touched), coq=coq,
+               key=f"ufout/{uf}/{tuple(n)}/{hash(tuple(c['leaves'][0]['mask']))}", size=math.prod(n))
     return rec
+
+
+def rand_fill(lf, ncell):
+    """the same operand description on another number of cells"""
+    nv = lf["nvdim"]
+    out = dict(lf)
+    out["vals"] = [lf["vals"][i % len(lf["vals"])] for i in range(ncell * nv)]
+    out["mask"] = [lf["mask"][i % len(lf["mask"])] for i in range(ncell)]
+    return out
 
 
 def run_case(c):
